@@ -46,6 +46,24 @@ class Sub(Plain):
     pass
 
 
+class Registry(type):
+    def describe(kls, n):
+        label = f"{kls.__name__}:{n}"
+        return label
+
+
+class K(metaclass=Registry):
+    pass
+
+
+class L(metaclass=Registry):
+    pass
+
+
+class KS(K):
+    pass
+
+
 def native_checks(tier, seed):
     sys.path.insert(0, os.environ.get("PVC_REPO", "/repo"))
     from ptera import probing
@@ -77,10 +95,24 @@ def native_checks(tier, seed):
                 getattr(o, meth)(10)
         if len(got) != len(pop):
             bad.append((meth, "class", f"{len(got)} events for {len(pop)} calls"))
+    # receivers that are themselves classes (methods of a metaclass reached through its instances)
+    cpop = [K, L, KS]
+    for target in cpop:
+        n += 1
+        try:
+            with probing("obj.describe > label", env={"obj": target}) as prb:
+                got = prb.accum()
+                for o in cpop:
+                    o.describe(1)
+        except BaseException as e:  # noqa
+            bad.append(("describe", target.__name__, f"{type(e).__name__}: {e}"))
+            continue
+        if [g.get("label") for g in got] != [target.describe(1)] or any(g.get("kls") is not target for g in got):
+            bad.append(("describe", target.__name__, f"events {got}"))
     viol = []
     if bad:
         script = ("import sys\nsys.path.insert(0, '/verif')\nfrom contracts import c13_native\nr = c13_native.native_checks('quick', 0)\n"
                   "print(r['summary'])\nsys.exit(1 if r['violations'] else 0)\n")
         viol.append({"name": "C13/native/population", "model": {"first": bad[0], "count": len(bad)}, "goal": str(bad[:3])[:800], "path": "", "script": script})
-    return {"bounded": [{"unit": "native:receiver-population", "bound": "7 instances of 4 kinds x 2 methods (plain, decorated) x 2 rounds",
+    return {"bounded": [{"unit": "native:receiver-population", "bound": "7 instances of 4 kinds x 2 methods (plain, decorated) x 2 rounds; 3 class objects as receivers of a metaclass method",
                          "obligations": n, "discharged": n - len(bad)}], "known": [], "violations": viol, "summary": {"probes": n, "differences": bad[:5]}}
